@@ -747,6 +747,9 @@ DELIMS = [',', '-', ';', ':', '', ' ', ', ', '..', '--', 'to', '0', '–', ',-']
 
 
 def fam_format_int_list(rng, quick):
+    bad = reject_tests(verbose=False)          # every run: the snippets just outside the subset must be refused
+    if bad:
+        raise RuntimeError('py2lean_c14 translated snippets it must refuse: %s' % bad)
     for l in _int_lists(rng, quick):
         r = rng.random()
         if r < 0.5:
@@ -811,3 +814,52 @@ FAMILIES = {
     'format_int_list': fam_format_int_list,
     'parse_int_list': fam_parse_int_list,
 }
+
+
+# ---------------------------------------------------------------------------------------------- refusal tests
+# every snippet violates ONE side condition of a rewrite: the translator must refuse it (`Unsupported`), never guess
+
+REJECT_SNIPPETS = [
+    ('deque aliased', 'import collections\ndef f(xs):\n    d = collections.deque()\n    e = d\n    d.append(1)\n    return len(e)\n',
+     {'xs': 'List Int'}, 'Int'),
+    ('deque sliced (TypeError in Python, fine on a list)',
+     'import collections\ndef f(xs):\n    d = collections.deque()\n    d.append(1)\n    return len(d[0:1])\n', {'xs': 'List Int'}, 'Int'),
+    ('deque name rebound by the module', 'import collections\ncollections = None\ndef f(xs):\n    d = collections.deque()\n    return len(d)\n',
+     {'xs': 'List Int'}, 'Int'),
+    ('deque with an initial iterable', 'import collections\ndef f(xs):\n    d = collections.deque(xs)\n    return len(d)\n',
+     {'xs': 'List Int'}, 'Int'),
+    ('mutated list stored in another list', 'def f(xs):\n    a = []\n    b = [a]\n    a.append(1)\n    return len(b)\n', {'xs': 'List Int'}, 'Int'),
+    ('append on a parameter', 'def f(xs):\n    xs.append(1)\n    return len(xs)\n', {'xs': 'List Int'}, 'Int'),
+    ('popleft after another operation of the statement',
+     'import collections\ndef f(xs):\n    d = collections.deque()\n    d.append(1)\n    y = xs[0] + d.popleft()\n    return y\n', {'xs': 'List Int'}, 'Int'),
+    ('two poplefts in one statement',
+     'import collections\ndef f(xs):\n    d = collections.deque()\n    d.append(1)\n    y = d.popleft() - d.popleft()\n    return y\n', {'xs': 'List Int'}, 'Int'),
+    ('format spec other than d', "def f(n):\n    return '{:x}'.format(n)\n", {'n': 'Int'}, 'Str'),
+    ('format with a named field', "def f(n):\n    return '{v:d}'.format(v=n)\n", {'n': 'Int'}, 'Str'),
+    ('format conversion !r', "def f(n):\n    return f'{n!r}'\n", {'n': 'Int'}, 'Str'),
+    (':d applied to a string', "def f(s):\n    return f'{s:d}'\n", {'s': 'Str'}, 'Str'),
+    ('min rebound', "def min(l):\n    return 0\ndef f(xs):\n    return min(xs)\n", {'xs': 'List Int'}, 'Int'),
+    ('split with maxsplit', "def f(s):\n    return s.split(',', 1)\n", {'s': 'Str'}, 'List Str'),
+    ('split without separator (whitespace runs)', "def f(s):\n    return s.split()\n", {'s': 'Str'}, 'List Str'),
+    ('strip with characters', "def f(s):\n    return s.strip('x')\n", {'s': 'Str'}, 'Str'),
+    ('map object stored', "def f(ps):\n    m = map(int, ps)\n    return list(m)\n", {'ps': 'List Str'}, 'List Int'),
+    ('int with a base', "def f(s):\n    return int(s, 16)\n", {'s': 'Str'}, 'Int'),
+    ('int() inside a conditional expression', "def f(s, b):\n    return int(s) if b else 0\n", {'s': 'Str', 'b': 'Bool'}, 'Int'),
+    ('join of ints', "def f(xs):\n    return ','.join(xs)\n", {'xs': 'List Int'}, 'Str'),
+    ('range with a step as a value', "def f(n):\n    return list(range(0, n, 2))\n", {'n': 'Int'}, 'List Int'),
+    ('comprehension with a filter over int()', "def f(ps):\n    return [int(p) for p in ps if p]\n", {'ps': 'List Str'}, 'List Int'),
+]
+
+
+def reject_tests(verbose=True):
+    """-> list of snippets that were NOT refused (must be empty)"""
+    bad = []
+    for label, src, params, result in REJECT_SNIPPETS:
+        spec = {'module': 'snippets', 'qualname': 'f', 'lean_name': 'f', 'params': params, 'kind': 'function',
+                'result': result, 'raises': True, 'tie_theorem': '-', 'ext': 'py2lean_c14'}
+        text, infos = py2lean.translate_source(src, [spec], 'snippets', 'snippets.py')
+        if not infos[0].get('error'):
+            bad.append(label)
+        if verbose:
+            print('%-55s %s' % (label, 'REFUSED: ' + infos[0]['error'][:90] if infos[0].get('error') else 'TRANSLATED (!)'))
+    return bad
